@@ -784,7 +784,17 @@ pub(crate) fn check_if_response_is_matched(
             .count();
         let last_n_count = total_count - before_boundary_count;
         if last_n_count > last_n_blocks {
-            (before_boundary_count - reorg_count, last_n_count)
+            // The reorg blocks are before the start block, so they are before the boundary, too.
+            let sampled_count = before_boundary_count
+                .checked_sub(reorg_count)
+                .ok_or_else(|| {
+                    let errmsg = format!(
+                        "failed to verify reorg last n headers since only {} of them (={})                         are before the difficulty boundary",
+                        before_boundary_count, reorg_count
+                    );
+                    StatusCode::InvalidReorgHeaders.with_context(errmsg)
+                })?;
+            (sampled_count, last_n_count)
         } else {
             (total_count - reorg_count - last_n_blocks, last_n_blocks)
         }
